@@ -306,7 +306,7 @@ impl Layer {
     ///
     /// Panics if .
     pub fn from_clipboard_data(data: &[u8]) -> Option<Layer> {
-        if data[0] != 0 {
+        if data.len() < 17 || data[0] != 0 {
             return None;
         }
         let x = i32::from_le_bytes(data[1..5].try_into().unwrap());
@@ -314,6 +314,11 @@ impl Layer {
         let width = u32::from_le_bytes(data[9..13].try_into().unwrap()) as usize;
         let height = u32::from_le_bytes(data[13..17].try_into().unwrap()) as usize;
         let mut data = &data[17..];
+        // every cell takes 14 bytes: reject sizes the data cannot back before the layer is allocated
+        let cells = width.checked_mul(height)?;
+        if cells == 0 || cells > i32::MAX as usize || data.len() / 14 < cells {
+            return None;
+        }
 
         let mut layer = Layer::new(fl!(crate::LANGUAGE_LOADER, "layer-pasted-name"), (width, height));
         layer.properties.has_alpha_channel = true;
